@@ -25,8 +25,7 @@ HARNESS_BIN = None
 RUN_MODULE = 'Run.C20'
 REPO_BINS = ['sccache']
 THEOREMS = ['C20_tcp_singleton', 'C20_abstract_singleton', 'C20_uds_singleton', 'C20_uds_unlocked_refuted',
-            'C20_converges', 'C20_tcp_no_client_fails', 'C20_uds_retry_needs_timing',
-            'C20_idle_not_before', 'C20_idle_exact', 'C20_stop_waits']
+            'C20_uds_retry_needs_timing', 'C20_startup_terminates', 'C20_idle_not_before', 'C20_idle_exact', 'C20_stop_waits']
 ASSUMPTIONS = [
     'kernel semantics as stated in Model/Startup.v: bind on a TCP port / abstract socket name is exclusive and the name is released when its owner exits; bind on a socket PATH fails iff the directory entry exists; unlink removes the entry but not the listening socket behind it; flock is exclusive and released at process exit',
     'bind+listen of one listener, and each of connect / unlink / flock / the start-up notification, are atomic steps',
@@ -275,7 +274,7 @@ def run_race(binp, kind, k, stale=False, timeout=150):
                 except OSError:
                     logs[i] = ''
             started = [i for i in range(k) if 'server started, listening on' in logs[i]]
-            if (len(live) <= len(started) and len(live) <= 1) or time.time() - t1 > 6.0:
+            if (len(live) <= len(started) and len(live) <= 1) or time.time() - t1 > 20.0:
                 break
             time.sleep(0.1)
         by_idx = {}
@@ -517,7 +516,9 @@ def classify_race(obs, v):
 def do_race(rep, known, binp, kind, k, stale=False):
     consts = rep.consts
     obs = run_race(binp, kind, k, stale)
-    case, stuck, cseq, sseq, cphase = race_case(obs, consts)
+    # the model variant is chosen from the SOURCE: without the lock call the faithful model is uds_nolock
+    mkind = 'uds_nolock' if (kind == 'uds' and not consts.get('uds_locked', True)) else kind
+    case, stuck, cseq, sseq, cphase = race_case(obs, consts, mkind)
     holder, finals = observed_end(obs, cseq)
     rep.evaluations += 1
     rep.count('race.kind=%s' % kind)
@@ -699,7 +700,6 @@ def life_stop(rep, binp, kind, delay, cap_expected=False):
         st = subprocess.run([binp, '--stop-server'], env=env, stdout=subprocess.PIPE, stderr=subprocess.PIPE, timeout=60)
         t_stopped = time.time()
         alive_after_stop = bool(live_servers(w.cache))
-        # a new client must not be able to use the draining server's address for a request it then loses
         out1, _ = p1.communicate(timeout=delay + 120)
         t_c1 = time.time()
         t_exit = wait_gone(w.cache, cap + 60)
@@ -716,7 +716,7 @@ def life_stop(rep, binp, kind, delay, cap_expected=False):
             t_exit = time.time()
         elif not cap_expected:
             observed = ['terminated', 'stop', 0]
-            if not alive_after_stop:
+            if not alive_after_stop and t_stopped < t_req + delay - 0.5:
                 vs.append('the server was gone right after the stop request although a compile was in flight')
             if not clean:
                 vs.append('the server did not finish its shutdown phase cleanly although the in-flight compile ended within the cap')
@@ -814,11 +814,12 @@ def extra(rep, known):
         bad = []
         for c, o in zip(corpus, outs):
             nolock = c[0] == b'uds_nolock'
-            n_listen = len(o[3]) if o and o[0] == b'rejected' else len(o[2])
+            acc = bool(o) and o[0] == b'accepted'
+            n_listen, n_live = (len(o[2]), len(o[3])) if acc else (-1, -1)
             if nolock:
-                if not (o[0] == b'accepted' and n_listen > 1):
+                if not (acc and n_listen > 1):
                     bad.append('pre-fix trace no longer shows >1 server: ' + sx.dumps(o)[:200])
-            elif o[0] != b'accepted' or n_listen != 1:
+            elif not acc or n_listen > 1 or n_listen != n_live:
                 bad.append('recorded trace: ' + sx.dumps(o)[:200])
         rep.oblige('corpus: recorded real traces (pre-fix S11 run under uds_nolock, post-fix runs)', not bad, '; '.join(bad) or '%d traces' % len(corpus))
         rep.evaluations += len(corpus)
@@ -827,8 +828,8 @@ def extra(rep, known):
         plan = [(kind, k, False) for rnd in range(3) for kind in ('tcp', 'uds', 'abstract') for k in ks]
         plan += [('uds', k, True) for k in (2, 8, 32)]
     else:
-        plan = [(kind, k, False) for kind in ('uds', 'tcp', 'abstract') for k in ks]
-        plan += [('uds', 8, True)]
+        plan = [(kind, k, False) for rnd in range(2) for kind in ('uds', 'tcp', 'abstract') for k in ks]
+        plan += [('uds', 8, True), ('uds', 32, True)]
     for kind, k, stale in plan:
         ok, obs, case = do_race(rep, known, binp, kind, k, stale)
         if not ok and rep.tier == 'quick' and sum(1 for v in rep.violations) >= 3:
